@@ -2,7 +2,7 @@
 From Coq.Strings Require Import Byte String.
 From Coq Require Import List NArith Bool.
 Import ListNotations.
-From V Require Import lib.Bytes model.Sse.
+From V Require Import lib.Bytes model.Sse model.SseTransport spec.Browser.
 Require Extraction.
 Require Import ExtrOcamlBasic.
 Local Open Scope nat_scope.
@@ -29,6 +29,30 @@ Fixpoint dec_obs (s : bytes) : list obs :=
                | _ => ORegCount (nb a)
                end in
       o :: dec_obs r
+  | _ => []
+  end.
+
+(* timed observations: three bytes each; op 9 = the clock advances by 256*a + b ticks *)
+Fixpoint dec_tobs (s : bytes) : list tobs :=
+  match s with
+  | op :: a :: b :: r =>
+      (if Nat.eqb (nb op) 9 then TAdv (256 * nb a + nb b)
+       else match dec_obs [op; a; b] with o :: _ => TO o | [] => TAdv 0 end) :: dec_tobs r
+  | _ => []
+  end.
+(* write deadline: empty = none, else two bytes *)
+Definition dec_cfg (s : bytes) : tconfig :=
+  match s with a :: b :: _ => {| wdl := Some (256 * nb a + nb b) |} | _ => {| wdl := None |} end.
+
+(* browser-side history: three bytes each  [op; c; e] *)
+Fixpoint dec_bevs (s : bytes) : list bev :=
+  match s with
+  | op :: a :: b :: r =>
+      let x := match nb op with
+               | 0 => BOpen (nb a) | 1 => BLeave (nb a) | 2 => BBroadcast (nb b) | 3 => BRecv (nb a) (nb b)
+               | _ => BCut (nb a)
+               end in
+      x :: dec_bevs r
   | _ => []
   end.
 
@@ -90,6 +114,22 @@ Definition dispatch (f : bytes) (a : list bytes) : list bytes :=
          enc_clients s;
          b2 (match holder s, waiting s with None, [] => false | _, _ => true end);
          enc_pairs (pending s)]
+    end
+  else if is f "browser" then
+    (* arg: browser-side history (spec/Browser.v).  reply: every browser served?; #events of the history;
+       owed (browser, event) pairs; browsers present; browsers whose stream was cut by the server side *)
+    let h := dec_bevs (arg 0 a) in
+    let b := brun h in
+    [b2 (browsers_servedb h); decn (length h); enc_pairs (owed b); enc_nats (present b); enc_nats (cut b)]
+  else if is f "tmonitor" then
+    (* args: write deadline of the transport (empty = none); timed observations.  reply: accepted?;
+       #observations followed; quiescent?; every browser that has not left served?; unserved (browser, event) pairs;
+       clients (id, pc, events received by the handler) *)
+    let h := dec_tobs (arg 1 a) in
+    match tmonitor (dec_cfg (arg 0 a)) tinit 0 h with
+    | inl ts => [b2 true; decn (length h); b2 (quiescentb (base ts)); b2 (match unserved ts with [] => true | _ => false end);
+                 enc_pairs (unserved ts); enc_clients (base ts)]
+    | inr i => [b2 false; decn i]
     end
   else if is f "run" then
     (* args: variant (1 = old code), schedule.  reply: all enabled?; steps done; panicked?; pending; registered *)
